@@ -21,7 +21,8 @@ from ..lib import CheckResult, Violation
 
 LIVE_STATIC = (7, 9)        # used throughout the circuit, never handed to the allocator
 PRE_STATIC = (8,)           # used by the static circuit before any allocation; handed over in some configurations
-STATIC = "{7,8,9}"
+MEASURED_ONLY = 6            # a static wire that is only measured, never gated (device wrappers must not treat it as free)
+STATIC = "{6,7,8,9}"
 PI4 = np.pi / 4
 
 
@@ -63,7 +64,7 @@ def build_tape(cfg, hist):
             if al["st"] == "any" and al["r"]:
                 add(qp.X(dw), ("use", d, 0))
             add(Deallocate([dw]), ("dealloc", d))
-    return qp.tape.QuantumScript(ops, [qp.probs(wires=list(LIVE_STATIC))]), tags
+    return qp.tape.QuantumScript(ops, [qp.probs(wires=list(LIVE_STATIC) + [MEASURED_ONLY])]), tags
 
 
 def read_trace(tape, tags, out):
@@ -154,7 +155,8 @@ def fresh_expected(cfg, hist):
                 ap("PauliX", [dpos[d]])
     p = np.abs(psi[:, 0]) ** 2
     p = p.reshape([2] * n)
-    return p.sum(axis=tuple(range(2, n))).reshape(-1)
+    p79 = p.sum(axis=tuple(range(2, n))).reshape(-1)
+    return np.kron(p79, np.array([1.0, 0.0]))          # the measured-only wire stays in |0>
 
 
 def run(tier, seed):
@@ -187,9 +189,9 @@ def run(tier, seed):
         if hi % 4 == 0:
             # the device wrapper computes registers / min_int itself from the device wires
             from pennylane.devices.preprocess import device_resolve_dynamic_wires
-            used = {7, 8, 9} | {w for w in cfg["a"] if w != 8}
+            used = {MEASURED_ONLY, 7, 8, 9} | {w for w in cfg["a"] if w != 8}
             if cfg["mi"] < 0:
-                dw = tuple(sorted(used)) + (1, 2, 4)
+                dw = (MEASURED_ONLY,) + tuple(sorted(used - {MEASURED_ONLY})) + (1, 2, 4)     # measured-only wire first in device order
                 c2 = dict(cfg, z=[4, 2, 1], a=[], mi=-1)
             else:
                 dw = None
